@@ -93,7 +93,10 @@ Proof.
   assert (C : forall cs, In s (Skel.Emit.cols_texts Mso cs) -> In s (Skel.Emit.cols_texts Std cs)).
   { intros cs. unfold Skel.Emit.cols_texts. rewrite !in_flat_map. intros [c0 [Hc H0]]. exists c0. split; [exact Hc|now apply I]. }
   assert (S : forall sc, In s (Skel.Emit.sec_texts Mso sc) -> In s (Skel.Emit.sec_texts Std sc)).
-  { intros sc. destruct sc as [cs|gs]; cbn [Skel.Emit.sec_texts]; [apply C|]. rewrite !in_flat_map. intros [g [Hg H0]]. exists g. split; [exact Hg|now apply C]. }
+  { intros sc. destruct sc as [cs|gs|ms]; cbn [Skel.Emit.sec_texts]; [apply C| |].
+    - rewrite !in_flat_map. intros [g [Hg H0]]. exists g. split; [exact Hg|now apply C].
+    - rewrite !in_flat_map. intros [m [Hm H0]]. exists m. split; [exact Hm|].
+      destruct m as [cl|ts|g]; cbn [Skel.Emit.mitem_texts] in *; [now apply R|assumption|now apply C]. }
   assert (W : forall ws, In s (flat_map (Skel.Emit.witem_texts Mso) ws) -> In s (flat_map (Skel.Emit.witem_texts Std) ws)).
   { intros ws. rewrite !in_flat_map. intros [wi [Hwi H0]]. exists wi. split; [exact Hwi|].
     destruct wi as [sc|ts]; cbn [Skel.Emit.witem_texts] in *; [now apply S|assumption]. }
